@@ -68,11 +68,15 @@ CLAIMED.update({
         text='Theorem frame_data_roundtrip: for every frame, row list (slots = element size + bit patterns), window '
              'and input chunk size >= 1 the model emits exactly one record per row of the window, numbered 1..N in '
              'order, each referencing the frame and decoding under the declared layout to the row\'s bit patterns '
-             '(NaN payloads, signed zero, extremes are bit patterns, hence covered). Tie: tapped IFLR bodies vs '
+             '(NaN payloads, signed zero, extremes are bit patterns, hence covered); a declared cast between integer types '
+             '(Model/Cast.lean): cast_element_roundtrip (for every source integer the element written under the cast type '
+             'exists and decodes under its code to castInt, which the type holds), cast_exact_when_held, cast_wraps '
+             '(otherwise the sample modulo 2^bits, nothing else); stream integer-casts (numpy vs castInt/encInt; file with '
+             'cast_dtype = file written from the model\'s values). Tie: tapped IFLR bodies vs '
              'frameDataBody on bit patterns extracted independently from the arrays (all byte orders / layouts); '
              'oracle decodes the real file with the layout declared by its own CHANNEL objects.',
-        note='PARTIAL: numpy element access for any byte order/stride/layout/read-only flag and the dtype cast are '
-             'outside the model; only the correspondence covers them.',
+        note='PARTIAL: numpy element access for any byte order/stride/layout/read-only flag and casts from or to '
+             'floating-point types are outside the model; only the correspondence covers them.',
         technique='Lean 4 proof (per-row round-trip + chunking lemma) + differential correspondence',
         design='§5 C03'),
     'C05': dict(
@@ -144,8 +148,11 @@ CLAIMED.update({
     'C18': dict(
         text='Theorems logical_files_isolated (in every reachable writable state each set record of a logical file holds '
              'exactly the objects added through it), shared_set_rejected (a non-empty set reachable from two logical '
-             'files makes the state unwritable), frames_independent. Tie: history correspondence incl. writability; '
-             'oracle: per-logical-file inventory of the decoded file = objects added to it.',
+             'files makes the state unwritable), frames_independent, reference_closure_isolated (in every reachable state '
+             'that write accepts, everything reachable from an object through any chain of references was added through '
+             'that object\'s logical file: Model/Checks.lean), foreign_reference_refused. Tie: history correspondence incl. '
+             'writability; reference histories (what write answers vs acceptWrite); oracle: per-logical-file inventory of the '
+             'decoded file = objects added to it, no reference across logical files in an accepted file.',
         note='Per-frame row isolation is C03 applied per frame; multi-frame/multi-logical-file files are in the C03/C05 '
              'whole-file streams.',
         technique='Lean 4 proof (invariant + decision logic) + history correspondence + file oracle',
